@@ -478,8 +478,9 @@ def output_names(default):
     ext = os.path.splitext(default)[1]            # .itp / .gro / .json
     # the suffix of ANOTHER structure / parameter format is a name like any other (model.pdb for gen_coords)
     other = {".gro": ".pdb", ".itp": ".top", ".json": ".txt"}.get(ext, ".dat")
-    return ["coords", "model" + other, "melt.300K", "run_1.5nm", "start" + ext.upper(), "my out" + ext, "a.b.c" + ext,
-            default + ".bak", "v2." + default, "MODEL" + other.upper()]
+    # ... and so are names with characters that mean something to glob / fnmatch / regular expressions
+    return ["coords", "model" + other, "out[v2]" + ext, "melt.300K", "start" + ext.upper(), "run_1.5nm", "my out" + ext,
+            "a.b.c" + ext, default + ".bak", "v2." + default, "MODEL" + other.upper(), "a*b?" + ext, "x+y(1)" + ext]
 
 
 def name_class(out, default):
